@@ -59,20 +59,27 @@ Definition obs_reading (o : sobs) : list N := concat (map fo_data (o_files o)).
 Definition opkind (x : xop) : N :=
   match x with
   | XOp (Write _ _ _ _ _ _ _ _) => 1 | XOp (Reopen _) => 2 | XOp (ExtRename _) => 3 | XOp (Pause _) => 4
-  | XRmDir _ => 5 | XRmActive _ => 6
+  | XRmDir _ => 5 | XRmActive _ => 6 | XAppend _ _ _ => 8
   end%N.
 
-Definition check_model (w : world) (ok : bool) (o : sobs) : list kind :=
+(* An event whose formatted value is empty has no bytes: it is acknowledged, it makes the sink open and rotate like any other
+   write, but nothing of it can be seen in a file.  [E] = the ids of the empty writes of the case; the comparison erases them
+   from what the model says the files hold. *)
+Definition vis (E : list N) (l : list N) : list N := filter (fun x => negb (memN x E)) l.
+Definition visf (E : list N) (f : fobs) : fobs := {| fo_kind := fo_kind f; fo_mode := fo_mode f; fo_data := vis E (fo_data f) |}.
+Definition model_files_vis (E : list N) (w : world) : list fobs := map (visf E) (model_files w).
+
+Definition check_model (E : list N) (w : world) (ok : bool) (o : sobs) : list kind :=
   (if Bool.eqb ok (o_ok o) then [] else [KOk]) ++
-  (if eqNl (reading (files w)) (obs_reading o) then [] else [KRead]) ++
-  (if eq_list (fun a b => N.eqb (fo_kind a) (fo_kind b) && eqNl (fo_data a) (fo_data b)) (model_files w) (o_files o) then
-     (if eqNl (map fo_mode (model_files w)) (map fo_mode (o_files o)) then [] else [KMode])
+  (if eqNl (vis E (reading (files w))) (obs_reading o) then [] else [KRead]) ++
+  (if eq_list (fun a b => N.eqb (fo_kind a) (fo_kind b) && eqNl (fo_data a) (fo_data b)) (model_files_vis E w) (o_files o) then
+     (if eqNl (map fo_mode (model_files_vis E w)) (map fo_mode (o_files o)) then [] else [KMode])
    else [KFiles]) ++
   (if bw w =? o_bw o then [] else [KBw]) ++
   (if (o_lc o =? -1) || (lc w =? o_lc o) then [] else [KLc])   (* -1: not observed (concurrent writers) *) ++
   (if N.eqb (match dirmode w with Some m => m | None => 0%N end) (o_dir o) then [] else [KDir]) ++
   (if eq_list (fun a b => N.eqb (fst a) (fst b) && N.eqb (snd a) (snd b)) (model_foreign w) (o_foreign o) then [] else [KForeign]) ++
-  (if eqNl (sout w) (o_out o) && eqNl (serr w) (o_err o) then [] else [KStd]).
+  (if eqNl (vis E (sout w)) (o_out o) && eqNl (vis E (serr w)) (o_err o) then [] else [KStd]).
 
 (* ids of concurrent writers are writer * 10000 + sequence number; [nth (k-1) wacked] lists the ids whose Process returned
    nil to writer k (1-based), in its program order *)
@@ -88,6 +95,7 @@ Section Case.
   Variable writers : N.          (* 0: one writer, acknowledgement order known; n > 0: n concurrent writers *)
   Variable counts : list (list N).   (* concurrent writers: the acknowledged ids of each writer in its program order *)
   Variable dm0 : option N.
+  Variable empties : list N.     (* ids of the writes whose formatted value is empty *)
 
   (* the properties evaluated on the observations alone *)
   (* [removed]: somebody has deleted the directory / the active file earlier in this history.  From then on the statement of
@@ -132,11 +140,11 @@ Section Case.
         let dirgone' := match x with XRmDir _ => true | _ => dirgone end in
         match ob with
         | None =>
-            let ackd' := match o with Write id _ _ _ _ _ _ _ => if ok then ackd ++ [id] else ackd | _ => ackd end in
+            let ackd' := match o with Write id _ _ _ _ _ _ _ => if ok && negb (memN id empties) then ackd ++ [id] else ackd | _ => ackd end in
             run_case div removed' dirgone' w' ackd' nren' (N.succ i) rest
         | Some ob =>
-            let ackd' := match o with Write id _ _ _ _ _ _ _ => if o_ok ob then ackd ++ [id] else ackd | _ => ackd end in
-            let mm := if div then [] else check_model w' ok ob in
+            let ackd' := match o with Write id _ _ _ _ _ _ _ => if o_ok ob && negb (memN id empties) then ackd ++ [id] else ackd | _ => ackd end in
+            let mm := if div then [] else check_model empties w' ok ob in
             map (fun k => (i, opkind x, k)) (mm ++ oracle removed' dirgone' o ackd' nren' ob)
             ++ run_case (div || nonempty mm) removed' dirgone' w' ackd' nren' (N.succ i) rest
         end
@@ -181,9 +189,11 @@ Record fcase := {
   c_dirlog : list (N * Z);
   c_steps : list (xop * option sobs)
 }.
+Definition empties_of (steps : list (xop * option sobs)) : list N :=
+  flat_map (fun s => match fst s with XOp (Write id size _ _ _ _ _ _) => if size =? 0 then [id] else [] | _ => [] end) steps.
 Definition mismatches (cs : list fcase) : list (N * (N * N * kind)) :=
   flat_map (fun k => map (fun m => (c_id k, (0%N, 7%N, m))) (dirlog_check (c_dirlog k)) ++ map (fun m => (c_id k, m))
-     (run_case (c_cfg k) (c_writers k) (c_counts k) (c_dm k) (negb (c_model k)) false false (w_init (c_fids k) (c_dm k) (c_k0 k)) [] 0%N 0%N (c_steps k))) cs.
+     (run_case (c_cfg k) (c_writers k) (c_counts k) (c_dm k) (empties_of (c_steps k)) (negb (c_model k)) false false (w_init (c_fids k) (c_dm k) (c_k0 k)) [] 0%N 0%N (c_steps k))) cs.
 
 (* ---- coverage vector: which branches of the model the cases reached (for the evidence) ---- *)
 Record cov := { v_steps : N; v_rot : N; v_rot_size : N; v_rot_time : N; v_rot_fail : N; v_pruned : N;
